@@ -65,7 +65,7 @@ func Enumerate(thorough bool, yield func(idx int, c Case)) int {
 		yield(idx, c)
 		idx++
 	}
-	for _, cb := range []string{"nil", "error", "panic"} {
+	for _, cb := range []string{"nil", "error", "panic", "panic-error", "panic-int", "panic-struct"} {
 		// no transaction bound at all: a scope that runs its callback outside any global transaction (propagation NotSupported,
 		// Never, or Supports with nothing to join) still has to report the callback's outcome truthfully and send nothing
 		for _, role := range []string{"outside-notsupported", "outside-never", "outside-supports", "outside-notsupported-suspending"} {
@@ -235,6 +235,12 @@ func runCase(c Case) observed {
 				return fmt.Errorf("business error")
 			case "panic":
 				panic("business panic")
+			case "panic-error":
+				panic(fmt.Errorf("business panic (error value)"))
+			case "panic-int":
+				panic(42)
+			case "panic-struct":
+				panic(struct{ Code int }{7})
 			}
 			return nil
 		})
@@ -332,7 +338,7 @@ func check(c Case, ob observed) (clause, detail string) {
 		switch {
 		case c.Callback == "error":
 			return "silent-success", "business error but nil was returned"
-		case c.Callback == "panic":
+		case strings.HasPrefix(c.Callback, "panic"):
 			return "silent-success", "business panic but nil was returned"
 		case c.Begin != "ok":
 			return "silent-success", d("begin answered %s but nil was returned", c.Begin)
@@ -393,7 +399,7 @@ func evalCase(r *rep.Run, c Case, idx int) {
 
 func Run(r *rep.Run) {
 	thorough := r.Tier == "thorough"
-	r.Rule = "complete product: callback outcome {nil, error, panic} x begin answer {ok, failure result, transport error, no reply} x every effective second-phase answer sequence over {ok, failure result, transport error, no reply} up to the retry bound x retry setting {1,2,3, 0=unbounded up to a horizon of 4 attempts} x context cancellation {never, before begin, inside the callback, after the k-th second-phase attempt} x role {initiator, participant, and scopes that run outside any transaction: NotSupported (with and without a transaction to suspend), Never, Supports with nothing to join}; single thread, virtual time (back-off waits elapse at once, the RPC timeout expires exactly for dropped requests). Non-trivial = any fault, cancellation or non-nil callback outcome."
+	r.Rule = "complete product: callback outcome {nil, error, panic with a string / error / int / struct value} x begin answer {ok, failure result, transport error, no reply} x every effective second-phase answer sequence over {ok, failure result, transport error, no reply} up to the retry bound x retry setting {1,2,3, 0=unbounded up to a horizon of 4 attempts} x context cancellation {never, before begin, inside the callback, after the k-th second-phase attempt} x role {initiator, participant, and scopes that run outside any transaction: NotSupported (with and without a transaction to suspend), Never, Supports with nothing to join}; single thread, virtual time (back-off waits elapse at once, the RPC timeout expires exactly for dropped requests). Non-trivial = any fault, cancellation or non-nil callback outcome."
 	r.Assume = []string{"coordinator = faketc; time is virtual (vtime overlay of backoff.go and getty_client.go)", "cancellation 'between callback and second phase' is injected at the last instant of the callback"}
 	if replay := os.Getenv("VERIF_REPLAY"); replay != "" {
 		b, err := os.ReadFile(replay)
